@@ -29,7 +29,8 @@ Fn1 == {"exp", "floor", "cos", "sin", "sqrt", "ln"}          \* listed functions
 Fn2 == {"max", "min", "sdiv"}                                \* listed functions of two (or more) arguments
 Leaves == {<<"num", "1">>, <<"num", "2.5">>, <<"name", "x">>, <<"name", "a:b">>, <<"name", ":b">>, <<"name", "a:">>, <<"name", "pi">>}
 BadKinds == {"call_unlisted", "call_open", "call_eval", "call_getattr", "method", "method_noarg", "attr", "attr_T", "call_of_call", "call_of_lambda",
-             "call_of_attr", "lambda0", "lambda1", "listcomp", "setcomp", "dictcomp", "genexp", "walrus", "dunder_call", "dunder_attr", "dunder_name"}
+             "call_of_attr", "lambda0", "lambda1", "listcomp", "setcomp", "dictcomp", "genexp", "walrus", "dunder_call", "dunder_attr", "dunder_name",
+             "dunder_fullwidth", "call_keyword", "call_starred"}      \* a double underscore spelled with a compatibility character; arguments other than plain positional ones
 Bad(c) == {<<"bad", k, c>> : k \in BadKinds}
 \* one-hole contexts of the allowed node types, every argument position
 Ctx(h) == {<<"bin", op, h, l>> : op \in BinOps, l \in {<<"name", "x">>}} \cup {<<"bin", op, l, h>> : op \in BinOps, l \in {<<"num", "1">>}}
